@@ -18,9 +18,17 @@ class BytesTok(Model):
         return 'Bytes(%s)' % self.tok
 
 
+_attr_len = z3.Function('attrs_len', z3.IntSort(), z3.IntSort())
+
+
 class AttrMapTok(Model):
+    """HashMap<String, String> of attributes as an opaque token; token 0 is the empty map"""
+
     def __init__(self, tok):
         self.tok = tok
+
+    def count(self):
+        return z3.If(self.tok == 0, 0, z3.If(_attr_len(self.tok) > 0, _attr_len(self.tok), 1))
 
     def ite(self, c, o):
         return AttrMapTok(z3.If(c, self.tok, o.tok))
@@ -110,6 +118,46 @@ def install(ctx):
         enc, dok, dlen, dval = _ufs(eng)
         ip.path.assume(z3.And(dlen(s.tok) >= 0, dval(s.tok) >= 0, dval(s.tok) < (1 << 64)))
         return Enum('Result', z3.If(dok(s.tok), 0, 1), {0: (DecodedVec(eng, s.tok),), 1: (Opaque('DecodeError'),)})
+
+    prev_default = M.table.get('<HashMap as Default>::default')
+
+    @M.reg('<HashMap as Default>::default')
+    def hashmap_default(ip, pc, args, dt):
+        q = (pc.get('qself') or '') + ' ' + (dt or '')
+        if 'HashMap<std::string::String, std::string::String>' in q:
+            return AttrMapTok(z3.IntVal(0))
+        return prev_default(ip, pc, args, dt)
+
+    prev_len = M.table.get('HashMap::len')
+
+    @M.reg('HashMap::len')
+    def hashmap_len(ip, pc, args, dt):
+        v = read_loc(args[0].loc)
+        if isinstance(v, AttrMapTok):
+            return S(v.count(), 'usize')
+        return prev_len(ip, pc, args, dt)
+
+    @M.reg('[T]::to_vec', 'slice::to_vec', '::to_vec', '<Bytes as From>::from', 'Bytes::from', 'Bytes::copy_from_slice', 'Bytes::to_vec')
+    def bytes_identity(ip, pc, args, dt):
+        from models_core import deref_all
+        v = deref_all(args[0])
+        if isinstance(v, BytesTok):
+            return v
+        return NotImplemented
+
+    @M.reg('<Timestamp as From>::from')
+    def timestamp_from(ip, pc, args, dt):
+        return Agg('Timestamp', [args[0]])
+
+    @M.reg('serde_json::to_string', 'to_string')
+    def serde_to_string(ip, pc, args, dt):
+        if 'serde_json' not in pc['raw']:
+            return NotImplemented
+        from models_core import ok, deref_all
+        v = deref_all(args[0])
+        ip.path.effect('serde_json::to_string', v)
+        ip.path.counter += 1
+        return ok(StrTok(z3.IntVal(-ip.path.counter)))
 
     @M.reg('<Vec as TryInto>::try_into')
     def vec_try_into(ip, pc, args, dt):
